@@ -38,6 +38,8 @@ def gen_file(rng, small=False):
     e, info = elfgen.sample_elf(rng)
     e.with_shdrs = rng.random() < 0.92
     if rng.random() < 0.3:
+        dup_version_sections(rng, e, info)
+    if rng.random() < 0.3:
         e.permute(rng)
     data, meta = e.build(rng, pad=rng.choice([0, 0, 0, 8, 64]))
     if rng.random() < 0.2:
@@ -204,3 +206,49 @@ def version_link_variant(rng, data, meta, info):
     others = [t for t in strtabs if t != hs[k]["sh_link"]]
     d2 = elfgen.patch(data, meta, "shdr", "sh_link", rng.choice(others) if rng.random() < 0.85 else len(hs) + 3, k)
     return d2, ["symver " + " ".join(str(i) for i in range(info.get("nversyms", 3) + 2))]
+
+
+def xnum_variants(rng):
+    """PN_XNUM (e_phnum = 0xffff) where no section header was parsed: (a) e_shoff = 0 -- both parsers then decode a
+    pseudo section header on top of the file header (for ELF32 its sh_info is the e_phoff field); (b) extended section
+    numbering declaring zero sections (shdr[0].sh_size = 0) while shdr[0].sh_info counts the segments.
+    Returns [(data, meta)]"""
+    out = []
+    for cl in (32, 64):
+        e = elfgen.Elf(cl, rng.random() < 0.5)
+        e.with_shdrs = False
+        e.seg(elfgen.PT["LOAD"], off=0, filesz=8, align=1)
+        e.layout = "hdr,ph,data,sh"
+        data, meta = e.build(rng)
+        d2 = elfgen.patch(data, meta, "ehdr", "e_phnum", 0xffff)
+        d2 = d2 + bytes(4096)                  # room for the e_phoff-many entries the pseudo header declares
+        out.append((d2, meta))
+    e = elfgen.Elf(rng.choice((32, 64)), rng.random() < 0.5)
+    e.seg(elfgen.PT["LOAD"], off=0, filesz=8, align=1)
+    e.seg(elfgen.PT["NOTE"], off=0, filesz=0, align=4)
+    e.add(b".t", 1, b"abc")
+    data, meta = e.build(rng)
+    d3 = elfgen.patch(elfgen.patch(data, meta, "ehdr", "e_shnum", 0), meta, "ehdr", "e_phnum", 0xffff)
+    for size, info_ in ((0, meta["nph"]), (0, 1), (meta["nsh"], meta["nph"])):
+        d4 = elfgen.patch(elfgen.patch(d3, meta, "shdr", "sh_size", size, 0), meta, "shdr", "sh_info", info_, 0)
+        out.append((d4, meta))
+    return out
+
+
+def dup_version_sections(rng, e, info):
+    """a second section of one of the GNU version kinds (with its own strings), anywhere in the table: which one a parser
+    uses when a kind occurs twice must be the same through both parsers"""
+    if not info.get("nversyms"):
+        return False
+    needs2 = [(b"libz.so.1", [(b"ZLIB_1.2", 0x4d2, 0, 2), (b"ZLIB_1.3", 0x4d3, 0, 3)])]
+    defs2 = [(1, 1, 0x111, [b"other.so"]), (2, 0, 0x222, [b"OTHER_1"]), (3, 0, 0x333, [b"OTHER_2"])]
+    vn, vd, vs = elfgen.build_versions(e.little, needs2, defs2, False, rng)
+    vsi = e.add(b".verstr2", elfgen.SHT["STRTAB"], vs)
+    kind = rng.choice(["n", "d", "s"])
+    if kind == "n":
+        e.add(b".gnu.version_r2", elfgen.SHT["GNU_VERNEED"], vn, link=vsi, info=len(needs2), align=4, flags=2)
+    elif kind == "d":
+        e.add(b".gnu.version_d2", elfgen.SHT["GNU_VERDEF"], vd, link=vsi, info=len(defs2), align=4, flags=2)
+    else:
+        e.add(b".gnu.version2", elfgen.SHT["GNU_VERSYM"], b"".join(enc(e.little, 2, rng.choice([1, 2, 3])) for _ in range(info["nversyms"])), link=0, entsize=2, align=2, flags=2)
+    return True
